@@ -205,7 +205,10 @@ var listOps = []Op{{"RegConn", "bd"}, {"DropConn", "bd"}, {"List", "d1"}, {"List
 // listBadOps: the listed set and the invalid revision together.
 var listBadOps = []Op{{"RegConn", "bd"}, {"DropConn", "bd"}, {"List", "d1"}, {"List", "all"}, {"Rev", "bad"}, {"Rev", "1"}}
 
-var extOps = append(append(append([]Op{{"List", "d1"}, {"List", "all"}, {"RegConn", "bh"}, {"DropConn", "bh"}}, revOps2...), allOps...), Op{"RegConn", "b3x"}, Op{"DropConn", "b3x"}, Op{"RegConn", "b4"}, Op{"DropConn", "b4"})
+// pOps: bp serves two same-named services of prefix-related packages.
+var pOps = []Op{{"RegConn", "bp"}, {"DropConn", "bp"}, {"RegConn", "b3"}, {"DropConn", "b3"}}
+
+var extOps = append(append(append([]Op{{"List", "d1"}, {"List", "all"}, {"RegConn", "bh"}, {"DropConn", "bh"}, {"RegConn", "bp"}, {"DropConn", "bp"}}, revOps2...), allOps...), Op{"RegConn", "b3x"}, Op{"DropConn", "b3x"}, Op{"RegConn", "b4"}, Op{"DropConn", "b4"})
 
 func randomHistory(rng *rand.Rand, minLen, maxLen int) History {
 	n := minLen + rng.Intn(maxLen-minLen+1)
@@ -360,6 +363,15 @@ func RunC11(r *mon.Run) {
 		total += len(keep)
 		outs := g.runAll(keep, Draws)
 		for i, h := range keep {
+			g.account(h, outs[i])
+			g.attribute(h, outs[i], Draws)
+		}
+	}
+	for L := 1; L <= 3; L++ {
+		hs := enumerate(pOps, L)
+		total += len(hs)
+		outs := g.runAll(hs, Draws)
+		for i, h := range hs {
 			g.account(h, outs[i])
 			g.attribute(h, outs[i], Draws)
 		}
